@@ -87,18 +87,53 @@ var c12Ops = []c12Op{
 	{"On/To(read-only)", func(x ap.Item) string {
 		var sb strings.Builder
 		_ = ap.OnObject(x, func(o *ap.Object) error {
+			if o == nil {
+				return nil // a nil-like member of a list: callbacks may receive nil (C20)
+			}
 			fmt.Fprint(&sb, "o:", o.ID, len(o.To), len(o.Name), o.Published.Unix())
 			return nil
 		})
-		_ = ap.OnActivity(x, func(a *ap.Activity) error { fmt.Fprint(&sb, "a:", a.ID, a.Actor != nil, a.Object != nil); return nil })
-		_ = ap.OnActor(x, func(a *ap.Actor) error { fmt.Fprint(&sb, "p:", a.ID, a.Inbox != nil); return nil })
-		_ = ap.OnIntransitiveActivity(x, func(a *ap.IntransitiveActivity) error { fmt.Fprint(&sb, "i:", a.ID, a.Actor != nil); return nil })
+		_ = ap.OnActivity(x, func(a *ap.Activity) error {
+			if a != nil {
+				fmt.Fprint(&sb, "a:", a.ID, a.Actor != nil, a.Object != nil)
+			}
+			return nil
+		})
+		_ = ap.OnActor(x, func(a *ap.Actor) error {
+			if a != nil {
+				fmt.Fprint(&sb, "p:", a.ID, a.Inbox != nil)
+			}
+			return nil
+		})
+		_ = ap.OnIntransitiveActivity(x, func(a *ap.IntransitiveActivity) error {
+			if a != nil {
+				fmt.Fprint(&sb, "i:", a.ID, a.Actor != nil)
+			}
+			return nil
+		})
 		_ = ap.OnCollectionIntf(x, func(c ap.CollectionInterface) error {
 			fmt.Fprint(&sb, "c:", c.Count(), len(c.Collection()))
 			return nil
 		})
-		_ = ap.OnLink(x, func(l *ap.Link) error { fmt.Fprint(&sb, "l:", l.Href); return nil })
-		_ = ap.OnItem(x, func(it ap.Item) error { fmt.Fprint(&sb, "it:", it.GetLink()); return nil })
+		_ = ap.OnLink(x, func(l *ap.Link) error {
+			if l != nil {
+				fmt.Fprint(&sb, "l:", l.Href)
+			}
+			return nil
+		})
+		if ap.IsItemCollection(x) || ap.IsIRIs(x) {
+			if iris, err := ap.ToIRIs(x); err == nil && iris != nil {
+				fmt.Fprint(&sb, "iris:", len(*iris))
+			}
+			_ = ap.OnIRIs(x, func(i *ap.IRIs) error { fmt.Fprint(&sb, "oniris:", len(*i)); return nil })
+			_ = ap.OnItemCollection(x, func(c *ap.ItemCollection) error { fmt.Fprint(&sb, "onitems:", len(*c)); return nil })
+		}
+		_ = ap.OnItem(x, func(it ap.Item) error {
+			if !ap.IsNil(it) {
+				fmt.Fprint(&sb, "it:", it.GetLink())
+			}
+			return nil
+		})
 		if o, err := ap.ToObject(x); err == nil && o != nil {
 			fmt.Fprint(&sb, "to:", o.Type)
 		}
@@ -107,8 +142,16 @@ var c12Ops = []c12Op{
 	{"lists(read-only)", func(x ap.Item) string {
 		var sb strings.Builder
 		_ = ap.OnObject(x, func(o *ap.Object) error {
+			if o == nil {
+				return nil
+			}
 			for _, l := range []ap.ItemCollection{o.To, o.CC, o.Tag, o.Audience} {
 				fmt.Fprint(&sb, l.Contains(ap.IRI("https://example.com/none")), len(l.IRIs()), l.Count(), l.First() != nil, ";")
+				if iris, err := ap.ToIRIs(l); err == nil && iris != nil {
+					fmt.Fprint(&sb, "iris:", len(*iris))
+				}
+				_ = ap.OnIRIs(l, func(i *ap.IRIs) error { fmt.Fprint(&sb, "oniris:", len(*i)); return nil })
+				_ = ap.OnItemCollection(l, func(c *ap.ItemCollection) error { fmt.Fprint(&sb, "onitems:", len(*c)); return nil })
 				if len(l) > 0 {
 					fmt.Fprint(&sb, l.Contains(l[len(l)-1]))
 				}
@@ -129,6 +172,9 @@ var c12Ops = []c12Op{
 	{"NaturalLanguage(read-only)", func(x ap.Item) string {
 		var sb strings.Builder
 		_ = ap.OnObject(x, func(o *ap.Object) error {
+			if o == nil {
+				return nil
+			}
 			fmt.Fprint(&sb, o.Name.Get("en"), o.Name.First(), o.Content.Equals(o.Content), o.Summary.String())
 			b, err := o.Name.MarshalJSON()
 			fmt.Fprint(&sb, c12Fingerprint(b, err))
@@ -182,6 +228,34 @@ var c12Gen = rapid.Custom(func(t *rapid.T) ap.Item {
 		x = ap.IRIs{g.ID("a"), g.ID("b")}
 	default:
 		x = g.Value(rapid.SampledFrom(goTypeNames).Draw(t, "gotype"), depth, false)
+	}
+	// now and then an item list holds an empty or nil IRI ("" or "-") in front of real members: operations that skip such members
+	// must skip them without compacting the list they were handed
+	if rapid.IntRange(0, 2).Draw(t, "plant-empty-iris") == 0 {
+		n := 0
+		vocab.Walk(x, 0, func(path string, depth int, node reflect.Value) {
+			if !node.CanSet() {
+				return
+			}
+			for _, f := range vocab.Fields(node.Type()) {
+				if f.Kind != vocab.KItems {
+					continue
+				}
+				fv := node.Field(f.Index)
+				l := fv.Interface().(ap.ItemCollection)
+				if len(l) == 0 || n >= 3 {
+					continue
+				}
+				n++
+				at := (n * 7) % (len(l) + 1)
+				empty := []ap.Item{ap.IRI(""), ap.NilIRI}[n%2]
+				nl := append(append(append(ap.ItemCollection{}, l[:at]...), empty), l[at:]...)
+				fv.Set(reflect.ValueOf(nl))
+			}
+		})
+		if l, ok := x.(ap.ItemCollection); ok && len(l) > 0 {
+			x = append(ap.ItemCollection{ap.NilIRI}, l...)
+		}
 	}
 	c12Spare(x)
 	return x
